@@ -286,6 +286,26 @@ async fn s_namespace(h: &mut Host) -> Result<(), Fail> {
         if got.push_config.map(|p| !p.push_endpoint.is_empty()).unwrap_or(false) { return Err(f("C10", "a rejected duplicate CreateSubscription changed the push configuration that is read back".into())); }
         h.ack(name, m.iter().map(|x| x.ack_id.clone()).collect()).await.map_err(setup("ack"))?;
     }
+    // C10: the whole push configuration is read back as it was given (endpoint, attributes, oidc token fields)
+    {
+        use deltio::pubsub_proto::push_config::{AuthenticationMethod, OidcToken};
+        let name = "projects/p/subscriptions/oidc";
+        let attrs: HashMap<String, String> = [("x-goog-version".to_string(), "v1".to_string()), ("k".to_string(), "w".to_string())].into_iter().collect();
+        let cfg = PushConfig { attributes: attrs.clone(), push_endpoint: "http://localhost:1/oidc".into(),
+            authentication_method: Some(AuthenticationMethod::OidcToken(OidcToken { service_account_email: "pusher@my-project.iam.gserviceaccount.com".into(), audience: "https://push.example.com/audience".into() })) };
+        let req = Subscription {
+            name: name.to_string(), topic: t.to_string(), push_config: Some(cfg.clone()),
+            bigquery_config: None, ack_deadline_seconds: 0, retain_acked_messages: false, message_retention_duration: None,
+            labels: Default::default(), enable_message_ordering: false, expiration_policy: None, filter: String::new(), dead_letter_policy: None,
+            retry_policy: None, detached: false, enable_exactly_once_delivery: false, topic_message_retention_duration: None, state: 0,
+        };
+        let created = h.subscriber.create_subscription(req).await.map_err(|e| f("C10", format!("CreateSubscription with an oidc push config failed: {:?}", e.code())))?.into_inner();
+        let read = h.subscriber.get_subscription(GetSubscriptionRequest { subscription: name.into() }).await.map_err(|e| f("C10", format!("GetSubscription: {:?}", e.code())))?.into_inner();
+        for (what, r) in [("create response", &created), ("GetSubscription", &read)] {
+            if r.push_config.as_ref() != Some(&cfg) { return Err(f("C10", format!("{}: push configuration read back as {:?}, created with {:?}", what, r.push_config, cfg))); }
+        }
+        h.subscriber.delete_subscription(DeleteSubscriptionRequest { subscription: name.into() }).await.map_err(|e| f("C10+C11", format!("DeleteSubscription failed: {:?}", e.code())))?;
+    }
     // C04 through the API: a subscription created with 3 s still waits the 10 s minimum
     let name = "projects/p/subscriptions/floor";
     h.sub(name, t, 3, None).await.map_err(c10("CreateSubscription of an absent name on an existing topic of the same project"))?;
@@ -965,6 +985,7 @@ async fn s_recreate_race(h: &mut Host) -> Result<(), Fail> {
     }
     Ok(())
 }
+
 
 /// C15 (streaming limit) and C17 (inconsistent control messages) on an open StreamingPull
 async fn s_stream_limits(h: &mut Host) -> Result<(), Fail> {
